@@ -94,6 +94,11 @@ func ccRandClaim(g *Rng) bridgesync.Claim {
 	}
 	leaf := []uint32{0, 1, 2, 0xffffffff, g.U32()}[g.Intn(5)]
 	c.GlobalIndex = bridgesync.GenerateGlobalIndex(mainnet, rollup, leaf)
+	if mainnet && g.Chance(25) {
+		// a non-canonical on-chain index: mainnet flag AND rollup bits set. The decoder keeps the rollup bits, every consumer
+		// (wire conversion, both commitments) has to drop them the same way
+		c.GlobalIndex.Or(c.GlobalIndex, new(big.Int).Lsh(big.NewInt(int64(1+g.Intn(9))), 32))
+	}
 	for i := 0; i < 32; i++ {
 		c.ProofLocalExitRoot[i] = common.BytesToHash(g.Bytes(32))
 		c.ProofRollupExitRoot[i] = common.BytesToHash(g.Bytes(32))
